@@ -279,7 +279,7 @@ def tlc_raw(ctx, spec_dir, module, cfg, workers=4, extra=(), env=None, timeout=9
     if cfg_text is not None:
         with open(os.path.join(d, cfg), "w") as f:
             f.write(cfg_text)
-    cmd = _java(xmx, deque) + ["-workers", str(workers), "-metadir", ctx.metadir(),
+    cmd = _java(xmx, deque) + ["-checkpoint", "0", "-workers", str(workers), "-metadir", ctx.metadir(),
                                "-config", cfg] + list(extra) + [module + ".tla"]
     t0 = time.time()
     rc, out, err = sh(cmd, timeout=timeout, env=env, cwd=d)
@@ -446,7 +446,17 @@ def validate_traces(ctx, spec_dir, module, cfg, trace_file, classify, max_reject
     if n == 0:
         raise InternalError("empty trace file " + trace_file)
     per = (n + shards - 1) // shards
-    blocks = [execs[i:i + per] for i in range(0, n, per)]
+    # blocks of at most `per` executions and at most MAXLINES events: keeps single TLC runs short and the shards balanced
+    MAXLINES = 6000
+    blocks, cur, cur_lines = [], [], 0
+    for ex in execs:
+        if cur and (len(cur) >= per or cur_lines + len(ex) > MAXLINES):
+            blocks.append(cur)
+            cur, cur_lines = [], 0
+        cur.append(ex)
+        cur_lines += len(ex)
+    if cur:
+        blocks.append(cur)
     import concurrent.futures as cf
     with ctx._lock:
         ctx._valn = getattr(ctx, "_valn", 0) + 1
